@@ -23,7 +23,7 @@ LEVEL_NOTE = "Trusts the uninterrupted run of the same code as the reference; 'u
 TECHNIQUE = 'deterministic simulation: planned-stop/restart fault at every split, reference = uninterrupted run'
 DESIGN_REF = 'DESIGN.md 4.4, 7.2'
 BUDGET = {
-    "quick": {"plans": 320, "wall": 75, "chunk": 4},
+    "quick": {"plans": 3000, "wall": 90, "chunk": 4},
     "thorough": {"plans": 20000, "wall": 900, "chunk": 8},
 }
 RULE = (
